@@ -7,9 +7,11 @@ import (
 	"hash/crc32"
 	"strconv"
 	"strings"
+	"time"
 
 	sgbucket "github.com/couchbase/sg-bucket"
 	"github.com/couchbaselabs/rosmar"
+	"github.com/couchbaselabs/rosmar/vrt"
 )
 
 // Op is one instance of the operation alphabet: a concrete call on the subject key plus the
@@ -159,6 +161,8 @@ func KVAlphabet() []Op {
 	setOp("SetRaw", e0, false, true, J("rawset"), 0)
 	setOp("Set/exp", eRel, false, false, J(`{"v":"sete"}`), 0)
 	setOp("Set/absexp", eAbs, false, false, J(`{"v":"seta"}`), 1)
+	// exactly 30 days is still an offset ("an offset of at most 30 days")
+	setOp("Set/exp30d", func(Env) uint32 { return 30 * 24 * 3600 }, false, false, J(`{"v":"set30"}`), 0)
 	setOp("Set/preserve", e0, true, false, J(`{"v":"setp"}`), 0)
 	setOp("Set/oversize", e0, false, false, bigBody, 0)
 	setOp("SetRaw/empty", e0, false, true, []byte{}, 0) // a present but zero-length body is still a body
@@ -208,7 +212,7 @@ func KVAlphabet() []Op {
 						if pre.Live {
 							return Expect{Succeeds: No, OutcomeProp: "C02", FailClasses: x.FailClasses}
 						}
-						return Expect{Live: No}
+						return Expect{Live: No, ExpSet: true, Exp: 0}
 					}
 					return x
 				case opt&sgbucket.Append != 0:
@@ -253,7 +257,7 @@ func KVAlphabet() []Op {
 	writeCas("raw", "Z", 0, sgbucket.Raw, J("rawwc"), J("rawwc"), 1)
 	writeCas("raw", "C", 0, sgbucket.Raw, J("rawwc"), J("rawwc"), 0)
 	writeCas("append", "C", 0, sgbucket.Append, J("+app"), J("+app"), 0)
-	writeCas("append", "S", 0, sgbucket.Append, J("+app"), J("+app"), 1)
+	writeCas("append", "S", 0, sgbucket.Append, J("+app"), J("+app"), 0)
 	writeCas("exp", "C", relExp, 0, J(`{"v":"wce"}`), J(`{"v":"wce"}`), 0)
 
 	// ---- Remove / Delete -------------------------------------------------------------------
@@ -346,7 +350,9 @@ func KVAlphabet() []Op {
 		return func([]byte) ([]byte, *uint32, bool, error) { e := uint32(relExp); return nil, &e, false, nil }
 	}, 0, func(pre Doc, env Env) Expect {
 		if !pre.Live {
-			return Expect{} // expiry-only update of a key without a body: spec-silent
+			// expiry-only update of a key without a body: whether it stores anything is spec-silent, but
+			// what it leaves has no body and - being deleted - no expiry (C14)
+			return Expect{Live: No, ExpSet: true, Exp: 0}
 		}
 		return Expect{Live: Yes, Body: pre.Body, XSet: true, X: copyX(pre.X), ExpSet: true, Exp: AbsExp(relExp, env.Now)}
 	})
@@ -456,6 +462,7 @@ func KVAlphabet() []Op {
 					x.Live, x.Body = Yes, pre.Body
 				} else {
 					x.Live = No
+					x.ExpSet = false // an expiry on a key without a body means nothing: spec-silent
 				}
 				return x
 			}})
@@ -694,6 +701,20 @@ func KVAlphabet() []Op {
 				return Expect{Succeeds: Yes, OutcomeProp: "C06", Live: Yes, Body: body, XSet: true, X: xss(vals), XNamed: named(vals), ExpSet: true, Exp: AbsExp(e, env.Now)}
 			}})
 	}
+	add(Op{Name: "WriteResurrectionWithXattrs/preserve", EP: "WriteResurrectionWithXattrs", Tier: 1,
+		Run: func(c *rosmar.Collection, env Env) Result {
+			cas, err := c.WriteResurrectionWithXattrs(ctx, "k", 0, J(`{"v":"resp"}`), xs("_t", `{"by":"resp"}`), &sgbucket.MutateInOptions{PreserveExpiry: true})
+			r := resErr(err)
+			r.Cas = cas
+			return r
+		},
+		Spec: func(pre Doc, env Env) Expect {
+			if pre.Live {
+				return Expect{Succeeds: No, OutcomeProp: "C06", FailClasses: []string{"keyexists", "casmismatch"}}
+			}
+			// PreserveExpiry when there was no live document: the expiry is spec-silent, but the result is a live document
+			return Expect{Succeeds: Yes, OutcomeProp: "C06", Live: Yes, Body: J(`{"v":"resp"}`), XSet: true, X: map[string]string{"_t": `{"by":"resp"}`}, XNamed: map[string]bool{"_t": true}}
+		}})
 	resurrect("WriteResurrectionWithXattrs/_s", xs("_s", `{"by":"res"}`), 0, 0)
 	resurrect("WriteResurrectionWithXattrs/none", nil, relExp, 0)
 
@@ -771,18 +792,24 @@ func KVAlphabet() []Op {
 	dwx("DeleteWithXattrs/none", nil, 0)
 
 	// ---- WithMeta --------------------------------------------------------------------------
-	meta := func(del bool, oldTok, newTok string, tier int) {
+	meta := func(del bool, oldTok, newTok string, tier int, withExp ...bool) {
 		body := J(`{"v":"swm"}`)
 		xa := J(`{"_s":{"by":"meta"}}`)
 		name := ifs(del, "DeleteWithMeta", "SetWithMeta")
-		add(Op{Name: name + "/" + oldTok + "/" + newTok, EP: name, Tier: tier,
+		expOf := func(env Env) uint32 {
+			if len(withExp) > 0 {
+				return env.Now + 40 // WithMeta takes absolute expiries
+			}
+			return 0
+		}
+		add(Op{Name: name + "/" + oldTok + "/" + newTok + ifs(len(withExp) > 0, "/exp", ""), EP: name, Tier: tier,
 			Run: func(c *rosmar.Collection, env Env) Result {
 				newCas := env.Cas(newTok)
 				var err error
 				if del {
-					err = c.DeleteWithMeta(ctx, "k", env.Cas(oldTok), newCas, 0, xa)
+					err = c.DeleteWithMeta(ctx, "k", env.Cas(oldTok), newCas, expOf(env), xa)
 				} else {
-					err = c.SetWithMeta(ctx, "k", env.Cas(oldTok), newCas, 0, xa, body, sgbucket.FeedDataTypeJSON)
+					err = c.SetWithMeta(ctx, "k", env.Cas(oldTok), newCas, expOf(env), xa, body, sgbucket.FeedDataTypeJSON)
 				}
 				r := resErr(err)
 				if err == nil {
@@ -799,7 +826,7 @@ func KVAlphabet() []Op {
 				x.Succeeds = Yes
 				x.CasGiven = env.Cas(newTok)
 				x.XSet, x.X, x.XNamed = true, map[string]string{"_s": `{"by":"meta"}`}, map[string]bool{"_s": true}
-				x.ExpSet, x.Exp = true, 0
+				x.ExpSet, x.Exp = true, expOf(env)
 				if del {
 					x.Live = No
 				} else {
@@ -808,6 +835,7 @@ func KVAlphabet() []Op {
 				return x
 			}})
 	}
+	meta(false, "C", "AB", 0, true)
 	meta(false, "C", "AB", 0)
 	meta(false, "Z", "AB", 1)
 	meta(false, "S", "AB", 0)
@@ -859,6 +887,19 @@ func KVAlphabet() []Op {
 				return Expect{Succeeds: Yes, OutcomeProp: "C05", Gone: true}
 			}
 			return Expect{Succeeds: Yes, OutcomeProp: "C05", NoChange: true}
+		}})
+	add(Op{Name: "ExpirySweep", EP: "ExpirySweep", Tier: 1,
+		Bucket: func(b *rosmar.Bucket, env Env) Result {
+			vrt.Advance(25 * time.Second) // every relative/absolute expiry the alphabet sets (10, 20 s) passes; the witnesses' (5000 s) do not
+			vrt.Quiesce()
+			return Result{}
+		},
+		Spec: func(pre Doc, env Env) Expect {
+			if pre.Live && pre.Exp != 0 && pre.Exp <= env.Now+25 {
+				// expired: tombstoned exactly as by Delete, with its event, without any client call
+				return Expect{Succeeds: Yes, OutcomeProp: "C14", Live: No, XSet: true, X: sysOnly(pre.X), ExpSet: true, Exp: 0}
+			}
+			return Expect{Succeeds: Yes, OutcomeProp: "C14", NoChange: true}
 		}})
 	add(Op{Name: "Set/j", EP: "Set", Key: "j",
 		Run: func(c *rosmar.Collection, env Env) Result { return resErr(c.Set("j", 0, nil, J(`{"v":"setj"}`))) },
